@@ -849,7 +849,14 @@ func (fr *Frame) execUnOp(x *ssa.UnOp) {
 	}
 }
 
-func (fr *Frame) ghostEvent(kind string, ins ssa.Instruction) {}
+// ghostEvent: channel sends are counted in the builtin ghost $sends (the value sent and the
+// channel are not modelled).
+func (fr *Frame) ghostEvent(kind string, ins ssa.Instruction) {
+	if kind == "send" {
+		cur := fr.c.ghost(fr.st, "sends")
+		fr.c.setGhost(fr.st, "sends", app(SInt, "+", cur, tInt(1)))
+	}
+}
 
 // inLocalOnly reports whether the current point lies in a loop declared `modifies local`.
 func (fr *Frame) inLocalOnly() bool {
